@@ -675,3 +675,25 @@ func sortedKeys[M ~map[string]V, V any](m M) []string {
 	sort.Strings(ks)
 	return ks
 }
+
+func compileRe(pat string) *regexp.Regexp {
+	re, ok := reCache["raw:"+pat]
+	if !ok {
+		re = regexp.MustCompile(pat)
+		reCache["raw:"+pat] = re
+	}
+	return re
+}
+
+// exitLabel names an exit by the branch outcome it is reached on (position-free).
+func (fa *FuncAn) exitLabel(x Exit) string {
+	fs := fa.factsOn(x.In)
+	if len(fs) == 0 {
+		return "entry"
+	}
+	f := fs[0]
+	if f.holds {
+		return trunc(f.c.String(), 100)
+	}
+	return "!(" + trunc(f.c.String(), 100) + ")"
+}
